@@ -35,6 +35,17 @@ Proof.
     destruct (omap _ _); reflexivity.
 Qed.
 
+(* as_bint!: `impl CastFrom<$ty> for $BInt<N>` ($ty a primitive integer; the instantiations at bool / char are other impls, not
+   covered): Self::from_bits($BUint::cast_from(from)); $BUint::cast_from is the hand model's U_from_int (its own tie:
+   Proofs/LoopsTieC09.v, as_buint!) *)
+Lemma conv_bint_from_prim w n pb from fuel :
+  ConvGen.bint_from_prim w (Z.of_nat n) fuel pb from =
+  match Cast.I_from_int pb w n from with Ret r => Done r | Panic => Panicked end.
+Proof.
+  unfold ConvGen.bint_from_prim, Cast.I_from_int. rewrite Nat2Z.id.
+  destruct (Cast.U_from_int pb w n from); reflexivity.
+Qed.
+
 (* ---- all obligations of the group in one statement ---- *)
 Theorem conv_C09_match_model dbg w lg : 0 <= lg -> w = 2 ^ lg ->
   forall n pb ps ds fuel, length ds = n -> (n <= fuel)%nat ->
